@@ -4,7 +4,7 @@ mapping) up to the numbering of temporaries."""
 import itertools
 import re
 
-DECL = {"A": "[K, M]", "B": "[K, N]", "C": "[M, N]", "I": "[W]", "F": "[S]", "D": "[M]"}
+DECL = {"A": "[K, M]", "B": "[K, N]", "C": "[M, N]", "I": "[W]", "F": "[S]", "D": "[M]", "E": "[I, J, K]", "G": "[I]"}
 
 # (name, expression template with {X} = output, declaration of X, {mapping section: text for X})
 STEPS = [
@@ -42,8 +42,17 @@ STEPS = [
         {},
         {"partitioning": "M: [uniform_occupancy(D.2)]"},
     ]),
+    ("redI", "{X}[i, j] = E[i, j, k]", "[I, J]", [             # an intermediate with a rank named like the `I` suffix of temporaries
+        {"partitioning": "I: [uniform_shape(4)]"},
+        {"partitioning": "I: [uniform_occupancy(E.4)]"},
+        {"partitioning": "J: [uniform_shape(2)]", "loop-order": "[J1, I, J0, K]"},
+    ]),
+    ("useI", "{X}[i] = {P}[i, j] * G[i]", "[I]", [             # reads a previous redI output {P}
+        {},
+        {"partitioning": "I: [uniform_shape(2)]"},
+    ]),
 ]
-NEEDS = {"outer": "conv", "add": "mm", "scale": "red"}
+NEEDS = {"outer": "conv", "add": "mm", "scale": "red", "useI": "redI"}
 RANK_ORDERS = [{}, {"A": "[M, K]"}]
 
 
@@ -116,6 +125,40 @@ def compile_text(y):
     return str(HiFiber(Einsum.from_str(y), Mapping.from_str(y)))
 
 
+def intermediates_named_as_read(text, ends):
+    """each Einsum's result T<i> is left bound under T<i>_<declared ranks>, and every T<j>_... name the program reads
+    was bound by an earlier statement (the T<i> are produced by the cascade, none is user-supplied)"""
+    import ast as _ast
+    tree = _ast.parse(text)
+    bound, last = set(), {}
+    pat = re.compile(r"^T(\d+)_[A-Z0-9]+(_flat)?$")
+
+    def visit(stmts):
+        for st in stmts:
+            reads = [x.id for x in _ast.walk(st) if isinstance(x, _ast.Name) and isinstance(x.ctx, _ast.Load) and pat.match(x.id)]
+            if isinstance(st, (_ast.For, _ast.If, _ast.While)):
+                hdr = st.iter if isinstance(st, _ast.For) else st.test
+                reads = [x.id for x in _ast.walk(hdr) if isinstance(x, _ast.Name) and pat.match(x.id)]
+            for r in reads:
+                if r not in bound:
+                    return "%s is read at line %d but no earlier statement binds it" % (r, st.lineno)
+            if isinstance(st, _ast.Assign):
+                for t in st.targets:
+                    if isinstance(t, _ast.Name) and pat.match(t.id):
+                        bound.add(t.id)
+                        num = int(pat.match(t.id).group(1))
+                        lo = ends[num - 1] if num > 0 else 0
+                        if lo < st.lineno <= ends[num]:         # inside the section of the Einsum that produces it
+                            last[str(num)] = t.id
+            for sub in ("body", "orelse"):
+                if isinstance(st, (_ast.For, _ast.If, _ast.While)):
+                    e = visit(getattr(st, sub))
+                    if e:
+                        return e
+        return None
+    return visit(tree.body), last
+
+
 def check_cascade(combo, rank_order):
     """returns (status, detail): status in ok | skip | FAIL"""
     try:
@@ -134,14 +177,25 @@ def check_cascade(combo, rank_order):
     if texts is None:
         return "FAIL", "every Einsum compiles alone but the cascade raises " + casc_err
     prev = []
+    ends = []
     for i, t in enumerate(texts):
         lines = t.split("\n")
+        ends.append(len(lines))
         if lines[:len(prev)] != prev:
             return "FAIL", "text of prefix 0..%d does not extend the text of prefix 0..%d" % (i, i - 1)
         mine = "\n".join(lines[len(prev):])
         if renumber(mine) != renumber(alone[i]):
             return "FAIL", "Einsum %d differs from its stand-alone compilation" % i
         prev = lines
+    # intermediates are left under exactly the name later Einsums read
+    steps = {n: d for n, _, d, _ in STEPS}
+    err, last = intermediates_named_as_read(texts[-1], ends)
+    if err:
+        return "FAIL", "intermediate name: " + err
+    for i, (name, _) in enumerate(combo):
+        want = "T%d_%s" % (i, "".join(x.strip() for x in steps[name].strip("[]").split(",")))
+        if last.get(str(i)) != want:
+            return "FAIL", "the result of Einsum %d is left bound to %s, not to %s" % (i, last.get(str(i)), want)
     return "ok", ""
 
 
@@ -151,8 +205,8 @@ def sweep(maxlen=2, limit=None, stride=1, offset=0):
     for ro in RANK_ORDERS:
         for combo in cascades(maxlen):
             n += 1
-            if (n + offset) % stride:
-                continue
+            if (n + offset) % stride and not (combo[0][0] == "redI" and combo[-1][0] == "useI"):
+                continue        # (producer/consumer pairs over the rank named I are always evaluated)
             if limit and evaluated >= limit:
                 break
             st, detail = check_cascade(combo, ro)
